@@ -339,16 +339,20 @@ def _cfg_hierarchy():
     vde = de.add_op(ops.Custom("vde", tys.FunctionType([tys.Bool], [tys.Bool]), extension="e"), de.inputs()[0])
     de.set_outputs(vde[0])
     e.set_single_succ_outputs(ve[0])
+    # a CFG nested inside the entry block, with a value directly inside ITS entry block
+    ci = e.add_cfg(ve[0])
+    ei = ci.add_entry()
+    vei = ei.add_op(ops.Custom("vei", tys.FunctionType([tys.Bool], [tys.Bool]), extension="e"), ei.inputs()[0])
     b = c.add_successor(e[0])
     c2 = d0.add_cfg(d0.inputs()[1])
     e2 = c2.add_entry()
     ve2 = e2.add_op(ops.Custom("ve2", tys.FunctionType([tys.Bool], [tys.Bool]), extension="e"), e2.inputs()[0])
-    return d0, c, e, b, c2, {"v0": v0, "ve": ve, "vde": vde, "ve2": ve2, "in_d0": d0.input_node, "in_e": e.input_node, "in_b": b.input_node,
+    return d0, c, e, b, c2, {"v0": v0, "ve": ve, "vde": vde, "ve2": ve2, "vei": vei, "in_d0": d0.input_node, "in_e": e.input_node, "in_b": b.input_node,
                              "entry": e.parent_node, "cfg": c.parent_node, "cfg2": c2.parent_node, "root": d0.parent_node}
 
 
 @lemma("C13", bounds="two CFGs inside a Dfg; wire into a new operation of a non-entry block from: its own block, the enclosing Dfg (Ext), the "
-                     "entry block (Dom), a region nested in the entry block, the other CFG, block / CFG / root nodes themselves",
+                     "entry block (Dom), a region nested in the entry block, a block of a CFG nested in the entry block, the other CFG, block / CFG / root nodes themselves",
        outside="dominance between non-entry blocks (not decidable by the builder at wiring time; premise of C01)")
 def block_wire_must_come_from_same_cfg():
     d0, c, e, b, c2, srcs = _cfg_hierarchy()
@@ -371,7 +375,7 @@ def block_wire_must_come_from_same_cfg():
     ext_ok = name in ("v0", "in_d0", "in_b", "cfg", "cfg2", "entry")  # parent is b, c or d0
     dom_ok = name in ("ve", "in_e")                                     # parent is the entry block
     outside = name in ("ve2", "root")
-    nested_in_block = name == "vde"
+    nested_in_block = name in ("vde", "vei")     # inside a region / an inner CFG of another block: not visible from block b
     if outside:
         sym.check("source_outside_cfg_refused", outcome in ("NotInSameCfg", "NoSiblingAncestor"))
     elif nested_in_block:
